@@ -622,6 +622,12 @@ func (c *FnVC) loopPos(h *ssa.BasicBlock) token.Pos {
 	li := c.loops[h]
 	for b := range li.blocks {
 		for _, in := range b.Instrs {
+			// phis and allocs carry the position of the variable's declaration, which may
+			// precede the loop (or be shared by two loops): not a position inside the loop
+			switch in.(type) {
+			case *ssa.Phi, *ssa.Alloc:
+				continue
+			}
 			if p := in.Pos(); p.IsValid() && p < best {
 				best = p
 			}
@@ -830,6 +836,7 @@ func (c *FnVC) entrySetup() {
 			c.comment("requires " + r.Text)
 			c.assume(t)
 		}
+		c.assumeGlobalInvariants(ev)
 		for _, l := range c.ct.Lemmas {
 			t, err := ev.lemmaExpr(l.Expr)
 			if err != nil {
